@@ -145,6 +145,11 @@ type PathQuery struct {
 	// DeferStop: a `defer` of a call satisfying this predicate counts as Stop at
 	// every later function exit (RunDefers).
 	DeferStop func(*ssa.Defer) bool
+	// Descend: when set and true for the static callee of a plain call (not go /
+	// defer), the callee's body is searched too: a Bad instruction reachable in it
+	// without a Stop is a hit; a callee in which every path to its return passes a
+	// Stop satisfies the obligation. The callee's own returns are neither.
+	Descend func(*ssa.Function) bool
 	// SkipEdge: CFG edges that must not be followed (e.g. the false edge of a
 	// condition the rule assumes true). May be nil.
 	SkipEdge func(from *ssa.BasicBlock, succIdx int) bool
@@ -221,6 +226,20 @@ func Bypass(start ssa.Instruction, startBlock *ssa.BasicBlock, q PathQuery) (ssa
 				stopped = true
 				break
 			}
+			if q.Descend != nil {
+				if c, isCall := in.(*ssa.Call); isCall {
+					if g := c.Call.StaticCallee(); g != nil && g.Blocks != nil && q.Descend(g) {
+						mayBad, mustStop := calleeSummary(g, q, map[*ssa.Function]bool{st.b.Parent(): true})
+						if mayBad {
+							return in, []*ssa.BasicBlock{st.b}
+						}
+						if mustStop {
+							stopped = true
+							break
+						}
+					}
+				}
+			}
 			if q.Bad != nil && q.Bad(in) {
 				// reconstruct path
 				var path []*ssa.BasicBlock
@@ -251,6 +270,57 @@ func Bypass(start ssa.Instruction, startBlock *ssa.BasicBlock, q PathQuery) (ssa
 		}
 	}
 	return nil, nil
+}
+
+// calleeSummary: inside g (entered from a call), can a Bad instruction be
+// reached without passing a Stop, and does every path to g's return pass a Stop?
+func calleeSummary(g *ssa.Function, q PathQuery, onStack map[*ssa.Function]bool) (mayBad, mustStop bool) {
+	if onStack[g] || len(onStack) > 5 {
+		return false, false
+	}
+	onStack[g] = true
+	defer delete(onStack, g)
+	inner := PathQuery{Stop: q.Stop, DeferStop: q.DeferStop, Descend: nil,
+		Bad: func(in ssa.Instruction) bool {
+			if _, isRet := in.(*ssa.Return); isRet {
+				return false
+			}
+			return q.Bad != nil && q.Bad(in)
+		}}
+	// nested calls
+	if q.Descend != nil {
+		inner.Stop = func(in ssa.Instruction) bool {
+			if q.Stop != nil && q.Stop(in) {
+				return true
+			}
+			if c, ok := in.(*ssa.Call); ok {
+				if h := c.Call.StaticCallee(); h != nil && h.Blocks != nil && q.Descend(h) {
+					_, ms := calleeSummary(h, q, onStack)
+					return ms
+				}
+			}
+			return false
+		}
+		innerBad := inner.Bad
+		inner.Bad = func(in ssa.Instruction) bool {
+			if innerBad(in) {
+				return true
+			}
+			if c, ok := in.(*ssa.Call); ok {
+				if h := c.Call.StaticCallee(); h != nil && h.Blocks != nil && q.Descend(h) {
+					mb, _ := calleeSummary(h, q, onStack)
+					return mb
+				}
+			}
+			return false
+		}
+	}
+	bad, _ := Bypass(nil, g.Blocks[0], inner)
+	mayBad = bad != nil
+	toRet := PathQuery{Stop: inner.Stop, DeferStop: q.DeferStop, Bad: func(in ssa.Instruction) bool { _, ok := in.(*ssa.Return); return ok }}
+	r, _ := Bypass(nil, g.Blocks[0], toRet)
+	mustStop = r == nil
+	return
 }
 
 // IsReturn reports whether in is a Return instruction.
